@@ -1,11 +1,11 @@
 \* repaired design, 3 blocks, 4 peers
 CONSTANTS HA = 3 HB = 0 ForkAt = 0 Start = 0 MaxIter = 4 WithCancel = TRUE
   Peers = {"honest", "corrupt", "other", "mute"}
-  Verify = TRUE Retry = TRUE CheckedStore = TRUE CtxAwareSends = TRUE
+  Verify = TRUE Retry = TRUE CheckedStore = TRUE CtxAwareSends = TRUE FieldsChecked = TRUE
   ClassOf <- MCIdentity EmptyA <- MCEmptyMix EmptyB <- MCNoEmpty
 INIT Init
 NEXT Next
 VIEW view
-INVARIANTS TypeOK StoredIsChain OnlyVerified EmittedVerified PrefixOfA NoSkip NoLeak ExitOnlyAfterCancel
+INVARIANTS TypeOK StoredIsChain OnlyVerified EmittedVerified PrefixOfA NoSkip NoLeak ExitOnlyAfterCancel NoCrash
 PROPERTIES StoreExtends
 CHECK_DEADLOCK FALSE
